@@ -282,6 +282,8 @@ def run(ctx):
         cases += [{"s": s, "brk": "+"} for s in strs] + [{"s": s, "brk": "+"} for s in rnd[:2000]]
         out = run_oracle("c06.py", {"cases": cases})
         found = []
+        # the property quantifies over structures with non-empty strands: such witnesses first, short ones first
+        out["failures"].sort(key=lambda f: (not all(f["s"].split(f["brk"])), len(f["s"])))
         for f in out["failures"][:10]:
             found.append({"key": {"s": f["s"]}, "input": f, "what": f["what"],
                           "snippet": f"from dsdobjects.complex_utils import *; make_pair_table({f['s']!r}, strand_break={f['brk']!r}); "
